@@ -1073,6 +1073,12 @@ func init() {
 		to.store(from)
 		return Iface{}, true
 	})
+	reg("internal/stringslite.Clone", func(in *Interp, fn *ssa.Function, a []Value, c *frame, s ssa.Instruction) (Value, bool) {
+		return a[0], true
+	})
+	reg("strings.Clone", func(in *Interp, fn *ssa.Function, a []Value, c *frame, s ssa.Instruction) (Value, bool) {
+		return a[0], true
+	})
 	reg("internal/abi.NoEscape", func(in *Interp, fn *ssa.Function, a []Value, c *frame, s ssa.Instruction) (Value, bool) {
 		return a[0], true
 	})
